@@ -67,12 +67,13 @@ def selectNamespace (ns parent : Option Str) (tag : Tag) : Option Str :=
   if tag = .attribute then ns
   else if ns.isNone && parent.isSome then some [] else ns
 
-/-- `add_attribute` -/
-def addAttribute (attrs : List Attr) (a : Attr) : List Attr :=
-  match findAttr attrs a with
-  | some pos => attrs.modify pos fun ex =>
-      { ex with max := maxsize, types := uniqueByQName (ex.types ++ a.types) }
-  | none => attrs ++ [a]
+/-- `add_attribute`: `collections.find` walks to the first equal attr, which gets
+`max_occurs = sys.maxsize` and the new types; without one the attr is appended -/
+def addAttribute : List Attr → Attr → List Attr
+  | [], a => [a]
+  | ex :: rest, a =>
+    if ex.same a then { ex with max := maxsize, types := uniqueByQName (ex.types ++ a.types) } :: rest
+    else ex :: addAttribute rest a
 
 /-- `build_attr`; `valueNone` = the `value is None` test (JSON only) -/
 def buildAttr (attrs : List Attr) (qname : Str) (ty : AType) (parentNs : Option Str) (tag : Tag)
